@@ -16,7 +16,7 @@ func init() {
 	register(&Prop{
 		ID:    "C20",
 		Title: "Trait models keep derived state consistent with their rules",
-		Explanation: "Structural clauses of C20, each a necessary condition of the stated behaviour; the arithmetic itself (unit round trips, exact amounts, version hashes) is NOT decided. " +
+		Explanation: "Structural clauses of C20, each a necessary condition of the stated behaviour; the arithmetic itself (unit round trips, exact amounts, version hashes) is NOT decided.  R20.10 partial writes name their paths. R20.11 a model's own interceptor precedes the caller's write options; derived configuration in modelArgs maps is rebuilt per option application." +
 			"R20.1 configuration is used: (i) in every pkg/trait package with a modelArgs struct, every []resource.Option field has a dedicated exported With…Option writer, and each such writer appends to the field its name refers to (best common prefix of the name's stem among the option fields); (ii) a constructor that builds a Model literal does not initialise a field from a package-level variable when it has an input of that very type. " +
 			"R20.2 a function under pkg/trait does not return a provably nil error on a path guarded by `some other error != nil` (swallowed error). " +
 			"R20.3 a pointer field that the function itself tests for nil is not dereferenced outside the protection of a non-nil test of the same access path. " +
